@@ -162,7 +162,23 @@ fn target_lists() -> Vec<Vec<&'static str>> {
 
 /// Build one source file with many guarded elements at `level`; returns (source, stems of the guarded elements)
 fn build_source(level: usize, groups: &[Vec<Cfg>], stems: &mut Stems, rng: &mut Rng) -> (String, Vec<String>) {
-    let attrs = |g: &Vec<Cfg>, ind: &str| g.iter().map(|c| format!("{ind}#[cfg({})]\n", c.render())).collect::<String>();
+    // the guards stand among the other attributes an item carries, in any order: doc comments (each line an attribute of
+    // its own) and lint attributes before, between and after them
+    let nth = std::cell::Cell::new(0usize);
+    let attrs = |g: &Vec<Cfg>, ind: &str| {
+        let n = nth.get();
+        nth.set(n + 1);
+        let cfgs: Vec<String> = g.iter().map(|c| format!("{ind}#[cfg({})]\n", c.render())).collect();
+        let mid = cfgs.len() / 2;
+        match n % 8 {
+            1 => format!("{}{ind}/// said after the guards\n", cfgs.concat()),
+            2 => format!("{ind}/// said before the guards\n{}", cfgs.concat()),
+            3 => format!("{}{ind}/// said between the guards\n{ind}/// in two lines\n{}", cfgs[..mid].concat(), cfgs[mid..].concat()),
+            4 => format!("{}{ind}#[allow(dead_code)]\n", cfgs.concat()),
+            5 => format!("{}{ind}#[doc = \"said after the guards\"]\n{ind}#[allow(dead_code)]\n", cfgs.concat()),
+            _ => cfgs.concat(),
+        }
+    };
     let mut st = vec![];
     let mut s = String::new();
     match level {
